@@ -712,7 +712,13 @@ func (fc *FnCtx) callByContract(st *State, call *ast.CallExpr, fn *types.Func, r
 			tags = fc.contract.safetyTags()
 		}
 		fc.scope = nil
-		fc.oblige(st, fmt.Sprintf("pre:%s#%d/%s", cname, ord, label), "pre", tags, t.T, "precondition of "+cname+": "+cl.Text, call)
+		if strings.Contains(" "+fc.contract.Opts["trust-pre"]+" ", " "+cname+" ") {
+			// explicitly assumed at this caller (listed in the evidence)
+			fc.notes = append(fc.notes, fmt.Sprintf("ASSUMED precondition of %s at %s: %s", cname, fc.pos(call), cl.Text))
+			st.addAssume(t.T)
+		} else {
+			fc.oblige(st, fmt.Sprintf("pre:%s#%d/%s", cname, ord, label), "pre", tags, t.T, "precondition of "+cname+": "+cl.Text, call)
+		}
 		fc.scope = scope
 	}
 	// recursion (ghost lemmas): the callee's measure must be smaller than ours
